@@ -22,6 +22,7 @@ DECIDED = [
     'R7: type promotion table (_maybe_promote) over all pairs of node classes: the more specific kind survives, is emptied and refilled from the winner with the conversion matching the two built-in bases (list <- mapping: values(); mapping <- list: enumerate()), attributes copied from the winner.',
     'R6: !del / !merge constructors set exactly delete=True / False on a plain node.',
     'R8: ClearNode(value) evaluated: !clear accepts no argument (ValueError for any value other than None) and constructs its base exactly once.',
+    'R9: ComposedNode.ayns.filter_nodes evaluated for all 32 verdict tables of the condition on a two-level tree: an entry survives iff the condition keeps it or it is a container that is non-empty after filtering; every removed path is reported. R7 also requires the container merge to end in _replace_*(..., allow_promotions=True).',
 ]
 UNDECIDED = ['interplay of three-level flag inheritance with concrete data.']
 
@@ -94,6 +95,8 @@ def check(repo, run, tier):
     g(r5, repo, run)
     g(check_flag_tags, repo, run, 'C04.R6', tags={'!del', '!merge'})
     g(mr.promotion_table, repo, run, 'C04.R7')
+    g(unitrules.filter_nodes_table, repo, run, 'C04.R9')
+    g(unitrules.promotions_enabled, repo, run, 'C04.R7')
     g(unitrules.clear_init, repo, run, 'C04.R8')
     g(unitrules.clear_premerge, repo, run, 'C04.R8')
     g.done()
@@ -101,6 +104,8 @@ def check(repo, run, tier):
 
 def mutants(repo):
     return [
+        Mutant('filter-drops-kept-containers', lambda r: in_func(r, 'ComposedNode.ayns.filter_nodes', "keep = keep or bool(possibly_new_child)", "keep = keep and bool(possibly_new_child)"), ['C04.R9']),
+        Mutant('merge-without-promotion', lambda r: in_func(r, 'ComposedNode.ayns.on_merge_impl', "ret = self._replace_self(other, allow_promotions=True)", "ret = self._replace_self(other)"), ['C04.R7']),
         Mutant('clear-of-missing-target', lambda r: in_func(r, 'ClearNode.ayns.on_premerge_impl', "if node is None:", "if node is not None:"), ['C04.R8', 'C04.R5']),
         Mutant('clear-accepts-arguments', lambda r: in_func(r, 'ClearNode.__init__', "if value is not None:", "if value is None:"), ['C04.R8']),
         Mutant('F5-reverted-absolute-lookup-in-other', lambda r: in_func(r, 'ComposedNode.ayns.on_merge_impl', "get_first_not_missing_node(path[_prefix_len:])", "get_first_not_missing_node(path)"), ['C04.R1']),
